@@ -15,8 +15,8 @@
      app_exn_ok e  - application exceptions are Exceptions and not SSLErrors (needed only for "an error page is
                      never appended to a response whose head went out"). *)
 From Coq Require Import List NArith ZArith Bool.
-From GV Require Import Base.Enc Base.Dec Gen.GenErrors Model.Handle Spec.ErrResp
-  Proof.HandleProofs Proof.ConnProofs Proof.TraceLemmas Proof.ErrRespProofs.
+From GV Require Import Base.Enc Base.Dec Gen.GenErrors Model.Handle Spec.ErrResp.
+From GV Require Import Proof.HandleProofs Proof.ConnProofs Proof.TraceLemmas Proof.ErrRespProofs.
 Import ListNotations.
 Local Open Scope N_scope.
 
